@@ -83,6 +83,11 @@ def build(case):
                 size = int(rng.choice([60, 120, 200, 300, 500, 900])) + uid % 37
                 uni.append({"chromosome": c, "start": pos, "end": pos + size, "gene": "G%d" % (uid // 3), "cls": "t"})
                 uid += 1
+                if uid % 8 == 5:
+                    # a second bait with the same start and a later end (a longer isoform's exon): genomic order is by
+                    # (chromosome, start, end) - seeded change C04q sorted by start only
+                    uni.append({"chromosome": c, "start": pos, "end": pos + size + 41, "gene": "G%d" % (uid // 3), "cls": "t"})
+                    uid += 1
                 pos += size + int(rng.choice([0, 10, 100, 240, 300, 5000])) + int(rng.integers(0, 7))
             pos += 600
             size = int(rng.choice([5000, 20000, 50000])) + int(rng.integers(0, 500))
